@@ -1575,6 +1575,18 @@ class Evaluator:
             ta, tb = self.truth(v.a), self.truth(v.b)
             if ta is not None and ta == tb:
                 return ta
+        if isinstance(v, Sym) and v.kind == "op" and v.args and v.args[0] in ("and", "or"):
+            ts = [self.truth(x) for x in v.args[1:]]
+            if v.args[0] == "and":
+                if any(t is False for t in ts):
+                    return False
+                if all(t is True for t in ts):
+                    return True
+            else:
+                if any(t is True for t in ts):
+                    return True
+                if all(t is False for t in ts):
+                    return False
         return None
 
     def as_cond(self, v):
